@@ -307,3 +307,36 @@ pub proof fn lemma_shrink_trans(d0: Db, d1: Db, d2: Db)
         assert(db_get(d1, table, k) is Some);
     }
 }
+pub proof fn lemma_db_ok_world_mono(d: Db, w: World, w2: World)
+    requires db_ok(d, w), w.events.submap_of(w2.events)
+    ensures db_ok(d, w2)
+{
+    assert forall|table: int, k: Seq<u8>| is_index_table(table) && #[trigger] d.t[table].contains_key(k) implies
+        w2.events.contains_key(d.t[table][k] as int) && is_event_key(w2.events[d.t[table][k] as int], table, k) by {
+        assert(w.events.contains_key(d.t[table][k] as int));
+        assert(w.events.dom().contains(d.t[table][k] as int));
+    }
+}
+pub proof fn lemma_db_ok_index(d0: Db, d1: Db, w: World, e: Seq<u8>, off: u64)
+    requires db_ok(d0, w), w.events.contains_key(off as int), w.events[off as int] == e,
+        forall|table: int, k: Seq<u8>| #![trigger db_get(d1, table, k)] 1 <= table <= 9 ==>
+            db_get(d1, table, k) == (if is_event_key(e, table, k) { Some(off) } else { db_get(d0, table, k) }),
+    ensures db_ok(d1, w)
+{
+    assert forall|table: int, k: Seq<u8>| is_index_table(table) && #[trigger] d1.t[table].contains_key(k) implies
+        w.events.contains_key(d1.t[table][k] as int) && is_event_key(w.events[d1.t[table][k] as int], table, k) by {
+        assert(db_get(d1, table, k) is Some);
+        if is_event_key(e, table, k) {
+        } else {
+            assert(db_get(d0, table, k) is Some);
+            assert(d0.t[table].contains_key(k));
+        }
+    }
+}
+// pointwise "only removed" implies index_shrinks
+pub proof fn lemma_removed_shrinks(d0: Db, d1: Db)
+    requires forall|table: int, k: Seq<u8>| #![trigger db_get(d1, table, k)] 1 <= table <= 9 ==>
+        (db_get(d1, table, k) is None || db_get(d1, table, k) == db_get(d0, table, k))
+    ensures index_shrinks(d0, d1)
+{
+}
